@@ -92,6 +92,66 @@ pub fn dec_basis<D: Dec, const K: usize, const R: usize>(om: u32, rm: u32, p: us
     kcover!(xv == 0xffff);
 }
 
+fn dec_syms<D: Dec, const K: usize, const R: usize>(om: u32, rm: u32, x: &[u16; K], g: &'static [[u16; 16]]) -> [u16; K] {
+    let mut d = D::mk(K, R, 2).unwrap();
+    let mut i = 0;
+    while i < K {
+        if om >> i & 1 == 1 {
+            d.add_o(i, &x[i].to_le_bytes()).unwrap();
+        }
+        i += 1;
+    }
+    let mut j = 0;
+    while j < R {
+        if rm >> j & 1 == 1 {
+            let mut rec = 0u16;
+            let mut i = 0;
+            while i < K {
+                rec ^= lin(&g[j * K + i], x[i]);
+                i += 1;
+            }
+            d.add_r(j, &rec.to_le_bytes()).unwrap();
+        }
+        j += 1;
+    }
+    let out = d.dec();
+    let res = out.unwrap();
+    let mut y = [0u16; K];
+    let mut i = 0;
+    while i < K {
+        if let Some(s) = res.restored_original(i) {
+            y[i] = sym_of(s);
+        }
+        i += 1;
+    }
+    y
+}
+
+/// additivity of decode for a fixed pattern: restore(a) ^ restore(b) == restore(a ^ b)
+/// for two fully symbolic data sets (closes the step from the basis form to all data, and
+/// exposes data-dependent shortcuts in the rate layer's decode path)
+pub fn dec_additive<D: Dec, const K: usize, const R: usize>(om: u32, rm: u32, g: &'static [[u16; 16]]) {
+    set_lanes(1);
+    let mut a = [0u16; K];
+    let mut b = [0u16; K];
+    let mut c = [0u16; K];
+    let mut i = 0;
+    while i < K {
+        a[i] = k::any();
+        b[i] = k::any();
+        c[i] = a[i] ^ b[i];
+        i += 1;
+    }
+    let ya = dec_syms::<D, K, R>(om, rm, &a, g);
+    let yb = dec_syms::<D, K, R>(om, rm, &b, g);
+    let yc = dec_syms::<D, K, R>(om, rm, &c, g);
+    let mut i = 0;
+    while i < K {
+        assert!(ya[i] ^ yb[i] == yc[i], "decoding is not additive");
+        i += 1;
+    }
+}
+
 /// known answer: concrete data, expected restored symbols = the originals
 /// (the recovery symbols come from the REAL encoder, natively)
 pub fn dec_kat<D: Dec, const K: usize, const R: usize>(om: u32, rm: u32, orig: &[u16], rec: &[u16]) {
